@@ -640,15 +640,15 @@ def coupling_edge_between_different_populations(case):
 
 @predicate("F-16d")
 def single_unit_population_in_nontrivial_connectivity(case):
-    """a population with a single unit (n=1) that is source or target of a Connectivity which is delayed, carries a
-    coupling EdgeTemplate, or links it with a population of a different size"""
+    """a population with a single unit (n=1) that is source or target of a Connectivity which carries a
+    coupling EdgeTemplate (the other forms were repaired, F-16i)"""
     ps = _pspec(case)
     if not ps:
         return False
     size = {p[0]: p[2] for p in ps["pops"]}
     for c in ps["conns"]:
         ns, nt = size[c["s"].split("/")[0]], size[c["t"].split("/")[0]]
-        if (ns == 1 or nt == 1) and (c.get("d") is not None or c.get("coupling") or ns != nt):
+        if (ns == 1 or nt == 1) and c.get("coupling"):
             return True
     return False
 
